@@ -14,7 +14,7 @@ from pyvc.symexec import Executor, LoopSpec, View
 from pyvc.verify import verify_function
 from .common import new_registry, fn_entry, forall2, lemma
 
-OBLIGATION_FLOOR = 12
+OBLIGATION_FLOOR = 30
 Z3_TIMEOUT_MS = 60000
 
 Q = 'nautilus.bounds.periodic.PhaseShift.'
@@ -127,7 +127,114 @@ def transform_contract(k, G):
     return c
 
 
-def build(cx, fe, tier, info):
+def compute_unit(cx, fe, info):
+    """PhaseShift.compute: the centre of periodic parameter i is chosen such
+    that the forward shift puts the middle of the largest cyclic gap of column
+    periodic[i] of the construction points on the boundary: every shifted
+    construction coordinate keeps a distance of half that gap from 0 and 1."""
+    from pyvc.core import ClassVal
+    from pyvc.lib import array_fn
+    reg = new_registry(fe)
+    ex = Executor(cx, fe, reg)
+    G = {}
+    MGW = fresh_fn(['int'], 'real', 'largest_gap')   # ghost: witness per i
+    F = z3.BoolVal(False)
+
+    def env(ex_, st):
+        n_p = z3.Int(uid('n_periodic'))
+        nr = z3.Int(uid('n_rows'))
+        nc = z3.Int(uid('n_dim'))
+        st.assume(z3.And(n_p >= 0, nr >= 1, nc >= 1))
+        periodic = A.fresh_arr(st, 'int', 'periodic', n=n_p)
+        points = A.fresh_arr2(st, nr, nc, 'points', 'real')
+        st.assume(A.forall_idx(n_p, lambda j: z3.And(
+            periodic.at(j) >= 0, periodic.at(j) < nc)))
+        st.assume(forall2(nr, nc, lambda r, c: in_unit(points.at(r, c),
+                                                       'real')))
+        G.update(points=points, periodic=periodic)
+        return dict(cls=ClassVal('PhaseShift'),
+                    points=st.alloc(points, 'points'),
+                    periodic=st.alloc(periodic, 'periodic'))
+
+    def gap_ok(cen, upto):
+        pts, per = G['points'], G['periodic']
+        i, r = A.qi('i'), A.qi('r')
+        return z3.ForAll([i, r], z3.Implies(
+            z3.And(i >= 0, i < upto, r >= 0, r < pts.nr), z3.And(
+                MGW(i) >= 0,
+                shift_real(pts.at(r, per.at(i)), cen.at(i), F) >= MGW(i) / 2,
+                shift_real(pts.at(r, per.at(i)), cen.at(i), F) <=
+                1 - MGW(i) / 2)))
+
+    def inv0(V):
+        cen = V('bound.centers')
+        return [('centers_len', cen.n == G['periodic'].n),
+                ('largest_gap_across_the_boundary', gap_ok(cen, V.k(0))),
+                ('centers_in_unit', A.forall_idx(V.k(0), lambda i: z3.And(
+                    cen.at(i) >= 0, cen.at(i) < 1)))]
+
+    def step0(Vs, Ve):
+        st = Ve.st
+        i = Ve.k(0)
+        pts, per = G['points'], G['periodic']
+        x, dx = Ve('x'), Ve('dx')
+        g = array_fn(st, 'amax', A.to_real(dx), 'real')
+        cen0, cen1 = Vs('bound.centers'), Ve('bound.centers')
+        tag = x.tag if isinstance(x.tag, tuple) else (None,)
+        out = [('x_is_the_sorted_column_periodic_i', z3.And(
+            z3.BoolVal(tag[0] == 'sorted'), x.n == pts.nr, *(
+                [A.forall_idx(x.n, lambda t: x.at(t) == pts.at(
+                    tag[2](t), per.at(i)))] if tag[0] == 'sorted' else []))),
+            ('dx_are_the_cyclic_gaps', z3.And(
+                dx.n == x.n,
+                A.forall_idx(x.n - 1, lambda t: dx.at(t) == x.at(t + 1) -
+                             x.at(t)),
+                dx.at(x.n - 1) == x.at(0) - x.at(x.n - 1) + 1)),
+            ('lemma_largest_gap_is_attained_at_the_argmax', z3.And(
+                g >= 0, A.exists_idx(dx.n, lambda t: z3.And(
+                    dx.at(t) == g, cen1.at(i) == frac(
+                        x.at(t) + g / 2 + z3.RealVal('0.5')))))),
+            ('lemma_sorted_values_keep_half_the_gap', A.forall_idx(
+                x.n, lambda t: z3.And(
+                    shift_real(x.at(t), cen1.at(i), F) >= g / 2,
+                    shift_real(x.at(t), cen1.at(i), F) <= 1 - g / 2))),
+            ('lemma_every_row_is_a_sorted_value', A.forall_idx(
+                pts.nr, lambda r: z3.And(
+                    tag[3](r) >= 0, tag[3](r) < x.n, x.at(tag[3](r)) ==
+                    pts.at(r, per.at(i))) if tag[0] == 'sorted' else F)),
+            ('shifted_points_keep_half_the_largest_gap_from_the_boundary',
+             A.forall_idx(pts.nr, lambda r: z3.And(
+                 g >= 0,
+                 shift_real(pts.at(r, per.at(i)), cen1.at(i), F) >= g / 2,
+                 shift_real(pts.at(r, per.at(i)), cen1.at(i), F) <=
+                 1 - g / 2))),
+            ('other_centres_untouched', z3.And(cen1.n == cen0.n, A.forall_idx(
+                cen0.n, lambda t: z3.Implies(t != i, cen1.at(t) ==
+                                             cen0.at(t)))))]
+        # ghost assignment: the witness of iteration i (unconstrained so far:
+        # the invariant speaks about indices below i only)
+        st.assume(MGW(i) == g)
+        return out
+
+    def post(Vo, Vn, res):
+        rec = Vn.st.cell(res)
+        cen = Vn.ex.deref(Vn.st, rec.fields['centers'])
+        per = Vn.ex.deref(Vn.st, rec.fields['periodic'])
+        return [('periodic_stored', z3.BoolVal(per is G['periodic'])),
+                ('one_centre_per_periodic_parameter',
+                 cen.n == G['periodic'].n),
+                ('largest_gap_across_the_boundary', gap_ok(
+                    cen, G['periodic'].n)),
+                ('centres_in_unit', A.forall_idx(cen.n, lambda i: z3.And(
+                    cen.at(i) >= 0, cen.at(i) < 1)))]
+    c = FnContract(Q + 'compute', params=['points', 'periodic'], post=post,
+                   loops={0: LoopSpec(inv=inv0, step=step0)})
+    verify_function(ex, Q + 'compute', c, env, frame_obj='none',
+                    check_frame=False)
+    fn_entry(fe, info, Q + 'compute')
+
+
+def build(cx, fe, tier, info, only=None):
     # ---- transform, reals: functional spec + frame
     for (k, invc) in (('real', None), ('fp', False), ('fp', True)):
         reg = new_registry(fe)
@@ -145,6 +252,8 @@ def build(cx, fe, tier, info):
         verify_function(ex, Q + 'transform', c, mk2, tag=tag)
     fn_entry(fe, info, Q + 'transform')
 
+    compute_unit(cx, fe, info)
+
     # ---- lemmas over the spec function (reals)
     x, c = z3.Real('x'), z3.Real('c')
     for invflag in (False, True):
@@ -155,11 +264,17 @@ def build(cx, fe, tier, info):
               [x >= 0, x < 1],
               shift_real(shift_real(x, c, b), c, z3.BoolVal(not invflag)) == x)
     info['assumptions'] = [
+        'C16: compute: gap placement proved over the reals; np.sort / np.diff '
+        '/ np.argmax / np.amax are library models (sorted permutation, first '
+        'maximum); at least one construction point',
         'C16: the inverse law is proved over the reals; in binary64 it holds '
         'only up to rounding and is not proved (DESIGN.md 7, C16)',
         'C16: `periodic` holds distinct valid column indices (type invariant '
         'of the input; user-supplied)',
     ]
+
+
+_cache = {}
 
 
 def replay(r, tier, seed):
@@ -168,7 +283,12 @@ def replay(r, tier, seed):
     import subprocess
     from pyvc.frontend import REPO
     if 'binary64' not in r['name']:
-        return dict(found=False, note='no concrete replay for this obligation')
+        # search on the real code: random / adversarial point sets and
+        # periodic index sets
+        from .common import run_runtime
+        if 'rt' not in _cache:
+            _cache['rt'] = run_runtime('check_c16.py', ['quick'], timeout=900)
+        return _cache['rt']
     apps = (r.get('model') or {}).get('__apps__', {})
     xs = [float(v) for k, v in apps.items() if k.startswith('points')]
     cs = [float(v) for k, v in apps.items() if k.startswith('centers')]
